@@ -179,6 +179,7 @@ def table():
         return _TABLE
     from werkzeug import datastructures as ds
     from werkzeug import http
+    from werkzeug import wsgi
 
     def accept_uses(OFFERS=("text/html", "application/json", "en", "en-US", "utf-8", "gzip", "a/b;p=1", "*"), kind="accept"):
         OFFERS = list(OFFERS)
@@ -257,6 +258,8 @@ def table():
             ("to_header", lambda a: a.to_header()), ("str", lambda a: str(a))]),
         "unquote_etag": (lambda s: http.unquote_etag(s), []),
         "unquote_header_value": (lambda s: http.unquote_header_value(s), []),
+        "wsgi.get_host": (lambda s: wsgi.get_host(make_environ("HOST", s)), []),
+        "wsgi.get_current_url": (lambda s: wsgi.get_current_url(make_environ("HOST", s)), []),
         "Request": (None, request_uses()),
         "RequestBody": (None, request_uses() + body_uses()),
         "RequestPart": (None, part_uses()),
@@ -270,7 +273,7 @@ PURE_FNS = [
     "parse_accept_header[MIMEAccept]", "parse_accept_header[LanguageAccept]", "parse_accept_header[CharsetAccept]",
     "parse_cache_control_header", "parse_cache_control_header[ResponseCacheControl]", "parse_csp_header", "parse_etags",
     "parse_range_header", "parse_content_range_header", "parse_if_range_header", "parse_date", "parse_age", "parse_cookie",
-    "parse_cookie[environ]", "Authorization.from_header", "WWWAuthenticate.from_header", "unquote_etag", "unquote_header_value",
+    "parse_cookie[environ]", "Authorization.from_header", "WWWAuthenticate.from_header", "unquote_etag", "unquote_header_value", "wsgi.get_host", "wsgi.get_current_url",
 ]
 
 # ------------------------------------------------------------------------------ Request
